@@ -476,6 +476,24 @@ func main() {
 				}
 			})
 		})
+		r.Phase("Valid() <=> Parse(String()) == v: pre-release and build fields with long identifiers (all-digit identifiers of 18..25 digits with and without a leading zero, mixed into lists, long alphanumerics)", "complete over the listed fields", func() {
+			var big []string
+			for _, digits := range []int{18, 19, 20, 21, 25} {
+				nz := "2" + strings.Repeat("0", digits-2) + "7"
+				big = append(big, nz, "0"+nz[1:], "rc."+nz, "rc.0"+nz[1:], nz+".x", "0"+nz[1:]+"a", nz+"-", "00"+nz[2:])
+			}
+			big = append(big, "18446744073709551615", "18446744073709551616", "018446744073709551616", strings.Repeat("a", 300), "0."+strings.Repeat("9", 40), "00."+strings.Repeat("9", 40), "")
+			r.Parallel(int64(len(big)), 1, func(w *mc.W, i int64) {
+				for j := range big {
+					for c := range cores {
+						w.Point()
+						w.NonTrivial()
+						pv.Do(w, verArg{c, mc.Bin(big[i]), mc.Bin(big[j])})
+					}
+				}
+				w.Outcome("ver long identifiers")
+			})
+		})
 		r.Sample("ver", verArg{0, "a+b", ""})
 	})
 }
